@@ -507,6 +507,17 @@ class Ctx:
                 new.append(ve)
         for kid, (k, cnt) in sorted(knownhits.items()):
             print("KNOWN-FINDING: property=%s %s [%s: %d event(s)]" % (pid, k["what"], kid, cnt))
+        if os.environ.get("VERIF_DETERMINISM") and rerun is not None and events is not None:
+            # machinery self-test: a complete second run must record the same events (else a rare verdict
+            # could never be reproduced and would end as 'inconclusive')
+            ev2, _ = rerun()
+            k1, k2 = [event_key(e) for e in events], [event_key(e) for e in ev2]
+            s1, s2 = set(k1), set(k2)
+            log("DETERMINISM property=%s events=%d/%d only_first=%d only_second=%d" % (pid, len(k1), len(k2), len(s1 - s2), len(s2 - s1)))
+            for k in list(s1 - s2)[:3]:
+                log("  only in first run: " + k[:600])
+            for k in list(s2 - s1)[:3]:
+                log("  only in second run: " + k[:600])
         unreproduced = 0
         confirmed = new
         if new and rerun is not None:
